@@ -228,6 +228,17 @@ PROPS["C12"] = {
     "rule": "case = one operation sequence; distinct_nontrivial counts (mux flavour, #ufrags, length bucket, #connections) classes and concurrent read-distribution classes",
     "assumptions": ["'after it is removed' covers RemoveConnByUfrag while handles are still open"],
 }
+PROPS["C13"] = {
+    "parts": [part("TestVerifC13", race=True, q=8, t=16, tq=900)],
+    "level": "exploration",
+    "engine": "E5 muxmon",
+    "technique": "race detector + quiescence assertions over concurrent handle histories (Close counter on a fake underlying connection, real UDP/TCP mux handles) and over the write-abort state machine (fake shared socket that blocks writes until a deadline is set, logs every SetWriteDeadline, optionally fails it) with seeded pauses at the H2 windows",
+    "level_text": "Reference counting: 1-5 handles on one underlying connection, each with a blocked reader, closed in random order, concurrently, some twice; sequential exact variant through UDPMuxDefault (sibling writes and reads after every close) and TCPMuxDefault. "
+                  "Abort protocol: 1-5 writers (plain / context-cancellable) and 1-4 aborters over a socket that blocks or not, SetWriteDeadline failing or not; at quiescence write-state word 0, last deadline zero, probe write succeeds.",
+    "level_note": "Schedules come from the Go scheduler plus seeded pauses at hook H2; wall-clock only as a watchdog (20 s).",
+    "rule": "case = one handle history or one abort history; distinct_nontrivial counts (handles, first-closed) and (writers, aborters, socket mode, yield level, deadline-log shape) classes",
+    "assumptions": ["a write deadline left in the past makes later writes fail (as on a kernel socket)"],
+}
 PROPS["C05"] = {
     "parts": [part("TestVerifC05", q=8, t=16, tq=900)],
     "level": "exploration",
